@@ -34,7 +34,8 @@ def run(ctx):
         scen.append({"id": "wire%d" % i, "client": c, "server": s, "seed": hashlib.sha256(b"c06-%d-%d" % (ctx.seed, i)).hexdigest()[:48],
                      "siat": siat, "ciat": ciat, "biased": rng.random() < 0.5, "legacy": rng.random() < 0.4,
                      "spad": rng.choice([0, 1, 100, 8050, 8051]), "cpad": rng.choice([77, 78, 1000, 8127, 8128]),
-                     "refpad": rng.random() < 0.5, "rseed": rng.randrange(1 << 30), "wire": True, "script": sc})
+                     "refpad": rng.random() < 0.5, "rseed": rng.randrange(1 << 30), "wire": True, "script": sc,
+                     "skew": (0, -1, 1)[(i // 2) % 3] if c == "ref" else 0})
     binary = ctx.go_build("./cmd/c01")
     traces = ctx.exec_scenarios(binary, scen, "c06", shards=14, timeout=2400)
     if len(traces) != len(scen) and not any(t.get("crashed") for t in traces):
